@@ -59,7 +59,9 @@ def plan(tier, seed):
     n = len(small_diagrams())
     for lo in range(0, n, 12):
         shards.append({"k": 0, "pairs": True, "lo": lo, "hi": lo + 12, "bound": f"ordered pairs of {n} small diagrams"})
-    return {"shards": shards, "require_nonzero": ["parsed", "alias-ref", "dotted", "tags:PumlParsingError", "pair"]}
+    for lo in range(0, n, 24):
+        shards.append({"k": 0, "rule_level": True, "lo": lo, "hi": lo + 24, "bound": f"DiagramRule verdicts for {n} small diagrams"})
+    return {"shards": shards, "require_nonzero": ["parsed", "alias-ref", "dotted", "tags:PumlParsingError", "pair", "diagram-rule:PASS", "diagram-rule:FAIL"]}
 
 
 def ref(n, kind):
@@ -178,6 +180,50 @@ def run_pairs(shard, res, path):
     res.sample({"first": pool[shard["lo"]][0], "then": pool[-1][0], "expected_for_second": js(pool[-1][1])})
 
 
+def run_rule_level(shard, res, work):
+    """The parse result seen through DiagramRule: for every small diagram, both modes and a few
+    architectures over the pool names, the verdict must be the conformance verdict computed from the
+    generator's ground truth; one DiagramRule object per mode is re-used for all files (from_file)."""
+    import pathlib
+
+    from pytestarch import DiagramRule
+
+    from ..common import arch, run_rule
+    from .c07 import conformance
+
+    ns = ["top"] + ["top." + n for n in POOL_NAMES]
+    a, b, c = ns[1], ns[2], ns[3]
+    relations = [[], [(a, b)], [(b, a), (a, c)], [(c, a), (c, b), (b, c)]]
+    evs = [(I, arch(ns, I)) for I in relations]
+    pool = small_diagrams()
+    shared = {so: DiagramRule(should_only_rule=so) for so in (True, False)}
+    for i in range(shard["lo"], min(shard["hi"], len(pool))):
+        txt, (mods, deps) = pool[i]
+        path = os.path.join(work, f"d{i}.puml")
+        with open(path, "w") as f:
+            f.write(txt)
+        comps = sorted("top." + m for m in mods)
+        arrows = [("top." + s_, "top." + d_) for s_, ds in deps.items() for d_ in ds]
+        for so in (True, False):
+            for I, ev in evs:
+                exp = "PASS" if conformance(ns, I, comps, arrows, so) else "FAIL"
+                fresh = run_rule(DiagramRule(should_only_rule=so).from_file(pathlib.Path(path)).with_base_module("top"), ev)
+                again = run_rule(shared[so].from_file(pathlib.Path(path)).with_base_module("top"), ev)
+                res.states += 1
+                res.transitions += 2
+                res.evaluations += 1
+                res.traces += 1
+                res.nontrivial += 1
+                res.stats[f"diagram-rule:{exp}"] += 1
+                for label, got in (("fresh rule object", fresh), ("rule object re-used for the next file", again)):
+                    if got[0] != exp:
+                        res.violation("diagram-rule-verdict-differs-from-drawn-diagram",
+                                      {"text": txt, "should_only": so, "imports": [list(e) for e in I], "object": label, "first": None},
+                                      exp, list(got))
+                        break
+    res.sample({"text": pool[shard["lo"]][0], "modules": ns, "imports": relations[1], "expected": "conformance verdict of the drawn arrows"})
+
+
 def run_shard(shard, tier, seed):
     res = Result(shard["bound"])
     work = scratch_dir(f"c06-{shard.get('k')}-{shard.get('dbits', 0)}-{shard.get('lo', 0)}")
@@ -185,6 +231,9 @@ def run_shard(shard, tier, seed):
     try:
         if shard.get("pairs"):
             run_pairs(shard, res, path)
+            return res
+        if shard.get("rule_level"):
+            run_rule_level(shard, res, work)
             return res
         if shard.get("tags"):
             body = "[A] --> [B]\ncomponent C"
@@ -238,6 +287,25 @@ def run_shard(shard, tier, seed):
     return res
 
 
+def _check_rule_level(case):
+    import pathlib
+
+    from pytestarch import DiagramRule
+
+    from ..common import arch, run_rule
+
+    work = scratch_dir("c06-replay-rule")
+    try:
+        path = os.path.join(work, "d.puml")
+        with open(path, "w") as f:
+            f.write(case["text"])
+        ns = ["top"] + ["top." + n for n in POOL_NAMES]
+        ev = arch(ns, [tuple(e) for e in case["imports"]])
+        return run_rule(DiagramRule(should_only_rule=case["should_only"]).from_file(pathlib.Path(path)).with_base_module("top"), ev)
+    finally:
+        remove_scratch(work)
+
+
 def _check_case(case):
     work = scratch_dir("c06-replay")
     try:
@@ -257,7 +325,9 @@ def minimise(v):
         feats.append("dotted")
     if " as " in txt:
         feats.append("alias")
-    if v["kind"] == "parse-result-depends-on-diagram-parsed-before":
+    if v["kind"] == "diagram-rule-verdict-differs-from-drawn-diagram":
+        v["signature"] = f"{v['kind']}:only{v['case']['should_only']}:{v['case']['object'].split()[0]}"
+    elif v["kind"] == "parse-result-depends-on-diagram-parsed-before":
         v["signature"] = f"{v['kind']}:{'+'.join(feats) or 'plain'}"
     elif v["kind"] == "parse-result":
         v["signature"] = f"parse-result:{'+'.join(feats) or 'plain'}:dev{v['case']['deviations']}"
@@ -267,6 +337,11 @@ def minimise(v):
 
 
 def replay(rec):
+    if rec["kind"] == "diagram-rule-verdict-differs-from-drawn-diagram":
+        got = _check_rule_level(rec["case"])
+        if got[0] != rec["expected"]:
+            return [{"kind": rec["kind"], "case": rec["case"], "expected": rec["expected"], "observed": list(got)}]
+        return []
     got = _check_case(rec["case"])
     exp = rec["expected"]
     if exp == "PumlParsingError":
